@@ -7,7 +7,7 @@
       writer.go:881-886    ConcurrentRowGroupWriter.reset        -> map col_reset
       writer.go:1035-1072  ConcurrentRowGroupWriter.writeRows    -> lwrite (remain, chunks of 64)
       writer.go:1101-1206  newWriter (metadata sorted)           -> linit / init_of_map
-      writer.go:1208-1240  writer.reset                          -> lreset / reset_caps
+      writer.go:1211-1261  writer.reset                          -> lreset / reset_caps
       writer.go:1242-1259  writer.close                          -> lclose
       writer.go:1266-1279  writer.writeFileHeader                -> lheader
       writer.go:1303-1499  writer.writeFileFooter                -> emit_cindexes/emit_oindexes/footer
@@ -224,6 +224,7 @@ Section Machine.
   (** ---------- logical state of the writer ---------- *)
   Record lstate := mk_lstate {
     l_cfg : config;
+    l_cfgmd : list (N * N);       (* configMetadata: the sorted pairs of the configuration *)
     l_cols : list col;            (* currentRowGroup.columns *)
     l_numrows : N;                (* currentRowGroup.numRows *)
     l_rgs : list rgmeta;          (* rowGroups *)
@@ -320,16 +321,16 @@ Section Machine.
                             n off1 (sum_sizes ms') rgi in
         let ci := cp_ci slot ++ map (fun c => a_pageidx (c_acc c)) cols1 in
         let oi := cp_oi slot ++ locs in
-        (mk_lstate cfg (map (col_next_rg encrypted (rgi + 1)) cols1) 0
+        (mk_lstate cfg (l_cfgmd l) (map (col_next_rg encrypted (rgi + 1)) cols1) 0
                    (l_rgs l ++ [rg]) (l_cidx l ++ [ci]) (l_oidx l ++ [oi]) (l_md l)
                    off3 (l_out l ++ all) false, true)
       | true, _ =>
         (* every write fails: the deferred rg.reset() runs, nothing is recorded *)
-        (mk_lstate cfg (map (col_next_rg encrypted rgi) cols1) 0
+        (mk_lstate cfg (l_cfgmd l) (map (col_next_rg encrypted rgi) cols1) 0
                    (l_rgs l) (l_cidx l) (l_oidx l) (l_md l) (l_off l) (l_out l) true, false)
       | false, Some _ =>
         let acc := accepted fail all in
-        (mk_lstate cfg (map (col_next_rg encrypted rgi) cols1) 0
+        (mk_lstate cfg (l_cfgmd l) (map (col_next_rg encrypted rgi) cols1) 0
                    (l_rgs l) (l_cidx l) (l_oidx l) (l_md l)
                    (l_off l + evs_size acc) (l_out l ++ acc) true, false)
       end
@@ -340,7 +341,7 @@ Section Machine.
     (l', if used then tl (snd lc) else snd lc).
 
   Definition set_cols_numrows (l : lstate) (cols : list col) (n : N) : lstate :=
-    mk_lstate (l_cfg l) cols n (l_rgs l) (l_cidx l) (l_oidx l) (l_md l) (l_off l) (l_out l) (l_broken l).
+    mk_lstate (l_cfg l) (l_cfgmd l) cols n (l_rgs l) (l_cidx l) (l_oidx l) (l_md l) (l_off l) (l_out l) (l_broken l).
 
   (* writer.WriteRows + ConcurrentRowGroupWriter.writeRows: rows go to the
      current row group until it holds maxRows, then the row group is flushed;
@@ -369,7 +370,7 @@ Section Machine.
   (* func (w *writer) writeFileHeader *)
   Definition lheader (l : lstate) : lstate :=
     if l_off l =? 0 then
-      mk_lstate (l_cfg l) (l_cols l) (l_numrows l) (l_rgs l) (l_cidx l) (l_oidx l) (l_md l)
+      mk_lstate (l_cfg l) (l_cfgmd l) (l_cols l) (l_numrows l) (l_rgs l) (l_cidx l) (l_oidx l) (l_md l)
                 (ev_size EvMagic) (l_out l ++ [EvMagic]) (l_broken l)
     else l.
 
@@ -443,7 +444,7 @@ Section Machine.
         let '(oevs, rgs2, off2) := emit_oindexes 0 rgs1 (l_oidx l1) off1 in
         let ft := mk_footer (total_rows rgs2) rgs2 (l_md l1) (cf_created_by (l_cfg l1)) in
         let fe := EvFooter ft in
-        (mk_lstate (l_cfg l1) (l_cols l1) (l_numrows l1) rgs2 (l_cidx l1) (l_oidx l1) (l_md l1)
+        (mk_lstate (l_cfg l1) (l_cfgmd l1) (l_cols l1) (l_numrows l1) rgs2 (l_cidx l1) (l_oidx l1) (l_md l1)
                    (off2 + ev_size fe) (l_out l1 ++ cevs ++ oevs ++ [fe]) false, caps1).
 
   (* Writer.SetKeyValueMetadata: replace the value of an existing key, else append *)
@@ -454,18 +455,24 @@ Section Machine.
     end.
 
   Definition set_md (l : lstate) (md : list (N * N)) : lstate :=
-    mk_lstate (l_cfg l) (l_cols l) (l_numrows l) (l_rgs l) (l_cidx l) (l_oidx l) md (l_off l) (l_out l) (l_broken l).
+    mk_lstate (l_cfg l) (l_cfgmd l) (l_cols l) (l_numrows l) (l_rgs l) (l_cidx l) (l_oidx l) md (l_off l) (l_out l) (l_broken l).
 
   (* func (w *writer) reset(writer io.Writer): logical part.  [on_cols] is what
-     happens to the live columns: [col_reset] in the current code. *)
-  Definition lreset_with (on_cols : lstate -> list col) (l : lstate) : lstate :=
-    mk_lstate (l_cfg l) (on_cols l) 0 [] [] [] (l_md l) 0 [] false.
+     happens to the live columns, [on_md] to the key/value metadata. *)
+  Definition lreset_with (on_cols : lstate -> list col) (on_md : lstate -> list (N * N)) (l : lstate) : lstate :=
+    mk_lstate (l_cfg l) (l_cfgmd l) (on_cols l) 0 [] [] [] (on_md l) 0 [] false.
 
-  Definition lreset : lstate -> lstate := lreset_with (fun l => map col_reset (l_cols l)).
+  (* w.currentRowGroup.reset(); ...; w.metadata = append(w.metadata[:0], w.configMetadata...);
+     if w.encryption != nil { for each column: c.rowGroupOrdinal = 0 } *)
+  Definition lreset : lstate -> lstate :=
+    lreset_with (fun l => map (fun c => set_ordinal (cf_encrypted (l_cfg l)) 0 (col_reset c)) (l_cols l))
+                l_cfgmd.
 
-  (** the OLD reset (before 120fe51): the finished footer structs shared the
-      backing array of path_in_schema with the live columns; RowGroup.Reset
-      -> ColumnMetaData.Reset -> clear(c.PathInSchema) emptied the strings the
+  (** PINNED (pre-fix) resets, kept to refute the statement on them.
+
+      (1) before 120fe51: the finished footer structs shared the backing array
+      of path_in_schema with the live columns; RowGroup.Reset ->
+      ColumnMetaData.Reset -> clear(c.PathInSchema) emptied the strings the
       live column writers still point to, whenever a row group was finished *)
   Definition col_reset_pinned (finished : bool) (c : col) : col :=
     let r := col_reset c in
@@ -473,7 +480,18 @@ Section Machine.
            (c_enc r) (c_switched r) (c_ordinal r) (c_acc r).
 
   Definition lreset_pinned : lstate -> lstate :=
-    lreset_with (fun l => map (col_reset_pinned (match l_rgs l with [] => false | _ => true end)) (l_cols l)).
+    lreset_with (fun l => map (fun c => set_ordinal (cf_encrypted (l_cfg l)) 0
+                                 (col_reset_pinned (match l_rgs l with [] => false | _ => true end) c)) (l_cols l))
+                l_cfgmd.
+
+  (* (2) before 949139e: rowGroupOrdinal kept the row group count of the previous file *)
+  Definition lreset_pinned_ordinal : lstate -> lstate :=
+    lreset_with (fun l => map col_reset (l_cols l)) l_cfgmd.
+
+  (* (3) before cd20a46: the metadata list was not touched *)
+  Definition lreset_pinned_kv : lstate -> lstate :=
+    lreset_with (fun l => map (fun c => set_ordinal (cf_encrypted (l_cfg l)) 0 (col_reset c)) (l_cols l))
+                l_md.
 
   Fixpoint zip_slots (rgs : list rgmeta) (ci : list (list pageidx)) (oi : list (list pagelocs)) : list capslot :=
     match rgs, ci, oi with
@@ -530,14 +548,15 @@ Section Machine.
   Definition step_pinned : state -> op -> state := step_gen lreset_pinned.
 
   Definition run (s : state) (ops : list op) : state := fold_left step ops s.
-  Definition run_pinned (s : state) (ops : list op) : state := fold_left step_pinned ops s.
+  Definition run_gen (lr : lstate -> lstate) (s : state) (ops : list op) : state := fold_left (step_gen lr) ops s.
+  Definition run_pinned (s : state) (ops : list op) : state := run_gen lreset_pinned s ops.
 
   Definition reset (s : state) : state := step s Reset.
   Definition reset_pinned (s : state) : state := step_pinned s Reset.
 
   (* newWriter: [md] is the metadata list the writer starts with *)
   Definition linit (cfg : config) (md : list (N * N)) : lstate :=
-    mk_lstate cfg (map col_init (cf_cols cfg)) 0 [] [] [] md 0 [] false.
+    mk_lstate cfg md (map col_init (cf_cols cfg)) 0 [] [] [] md 0 [] false.
 
   Definition init (cfg : config) (md : list (N * N)) : state := mk_state (linit cfg md) [] [].
 
@@ -600,6 +619,9 @@ Definition run_ids (cfg : config) (kvmap : list (N * N)) (ops : list op) : state
 
 Definition run_ids_pinned (cfg : config) (kvmap : list (N * N)) (ops : list op) : state :=
   run_pinned encode_ids (init_of_map encode_ids cfg kvmap) ops.
+
+Definition run_ids_gen (lr : lstate -> lstate) (cfg : config) (kvmap : list (N * N)) (ops : list op) : state :=
+  run_gen encode_ids lr (init_of_map encode_ids cfg kvmap) ops.
 
 (* rows start, start+1, ... *)
 Fixpoint iota (start : N) (n : nat) : list N :=
